@@ -201,6 +201,7 @@ struct World {
     last_pkt: Vec<u8>,
     last_pdu: Vec<u8>,
     last_ctx: Option<ContextFrag>,
+    fresh: bool,
     dec: Option<Dec>,
     dec_cfg: (usize, usize),
     nprov: u64,
@@ -327,6 +328,7 @@ impl World {
             last_pkt: vec![],
             last_pdu: vec![],
             last_ctx: None,
+            fresh: false,
             dec: None,
             dec_cfg: (0, 0),
             nprov: 0,
@@ -360,6 +362,7 @@ impl World {
                 let k = n.min(after.len());
                 let tail = before.len() == after.len() && before[k..] == after[k..];
                 self.last_pkt = after[..k].to_vec();
+                self.fresh = true;
                 self.last_pdu = pdu.to_vec();
                 self.last_ctx = match s {
                     EncapStatus::FragmentedPkt(_, c) => Some(c),
@@ -602,7 +605,14 @@ impl World {
                 self.dec.as_mut().unwrap().reset_last_label();
                 "ok".into()
             }
-            "DECAP" | "DECAPL" => {
+            "DECAP" | "DECAPL" | "DECAPN" => {
+                if op == "DECAPN" {
+                    // lock-step: only a packet produced since the last delivery is delivered
+                    if !self.fresh {
+                        return "nopkt".into();
+                    }
+                    self.fresh = false;
+                }
                 let bytes = if op == "DECAP" {
                     bytes_tok(t[1])
                 } else {
